@@ -348,7 +348,7 @@ SEEDED = [
     ("C20-1", "C20", "K2"),
     # round 2
     ("r2-C01-1", "C01", "SH2"), ("r2-C01-2", "C01", "H2"),
-    ("r2-C03-1", "C03", "S1"), ("r2-C03-2", "C05", "INV"),
+    ("r2-C03-1", "C03", "S1"), ("r2-C03-2", "C03", "INV"),
     ("r2-C04-1", "C04", "SH2"), ("r2-C04-2", "C04", "SH3"),
     ("r2-C05-1", "C05", "GO1"), ("r2-C05-2", "C05", "ELT1"),
     ("r2-C06-1", "C06", "M4"), ("r2-C06-2", "C09", "V2"),
@@ -365,7 +365,7 @@ SEEDED = [
     ("r2-C20-1", "C20", "K3"),
     # round 3
     ("r3-C01-1", "C01", "PT1"), ("r3-C14-2", "C14", "PT1"),
-    ("r3-C03-1", "C03", "SH3"), ("r3-C03-2", "C05", "INV"),
+    ("r3-C03-1", "C03", "SH3"), ("r3-C03-2", "C03", "INV"),
     ("r3-C04-1", "C04", "SH1"),
     ("r3-C05-1", "C05", "GO1"),
     ("r3-C06-1", "C06", "M4"), ("r3-C06-2", "C06", "FW1"),
